@@ -124,7 +124,7 @@ package shell_operator
 //@   ensures [response-is-hooks]        nSetAdm > old(nSetAdm) ==> dyntype(lastAdmProp, *admission.Response) && lastAdmProp.(*admission.Response) == hook.lastHookResult.AdmissionResponse && hook.lastHookResult.AdmissionResponse != nil
 //@   ensures [response-stored]          result == nil && hook.lastHookResult.AdmissionResponse != nil ==> nSetAdm == old(nSetAdm) + 1
 //@   ensures [patch-at-most-once]       objectpatch.nPatchExec <= old(objectpatch.nPatchExec) + 1
-//@   ensures [patch/all-or-nothing @C13] objectpatch.nPatchExec > old(objectpatch.nPatchExec) ==> objectpatch.lastDecodeErr == nil && forall(j, 0, len(objectpatch.lastSpecs), objectpatch.SpecValid(objectpatch.lastSpecs[j]))
+//@   ensures [patch/all-or-nothing @C13,C04] objectpatch.nPatchExec > old(objectpatch.nPatchExec) ==> objectpatch.lastDecodeErr == nil && forall(j, 0, len(objectpatch.lastSpecs), objectpatch.SpecValid(objectpatch.lastSpecs[j]))
 //@   ensures [patch/in-order @C13]       hook.lastHookErr == nil && objectpatch.nPatchExec > old(objectpatch.nPatchExec) ==> objectpatch.nExec == old(objectpatch.nExec) + len(objectpatch.lastSpecs)
 //@        && forall(k, old(objectpatch.nExec), objectpatch.nExec, objectpatch.execOp[k] == objectpatch.opOf(objectpatch.lastSpecs[k - old(objectpatch.nExec)]))
 //@   ensures [patch/apply-error-fails @C13,C04] result == nil ==> forall(k, old(objectpatch.nExec), objectpatch.nExec, objectpatch.execErr[k] == nil)
